@@ -10,7 +10,7 @@ vocabulary of `NixModel/Pure/UpgradeShape.lean`:
 * `update_property_values`: the test that finds compound datasets, the re-check inside the loop (boolean expressions
   over atoms), the operations of one conversion in source order (delete, create main, the rules for the per-value
   extras: field, test `len(set(x)) > 1` / `any(x)`, action create `<name><suffix>` / set attribute to `x[0]`,
-  `if` / `elif` chaining);
+  `if` / `elif` chaining), and the names tested before anything is changed (refusal when a needed name is taken);
 * `update_alias_range_dimension`: detection test, re-check, operations of one conversion in source order;
 * `update_format_version`: the attribute written and its value;
 * `nixio/dimensions.py` `RangeDimension.is_alias` (if/elif chain of tests -> bool) and, for the getters `ticks`,
@@ -337,7 +337,33 @@ def props_shape(mod):
             else:
                 raise ExtractError("update_props line %d: `else` branch is not modelled" % ifn.lineno)
 
+    refusal = []
+    needed_var = None
     for st in stmts[2:]:
+        if (isinstance(st, ast.Assign) and len(st.targets) == 1 and _is_name(st.targets[0])
+                and isinstance(st.value, ast.List) and st.value.elts
+                and all(isinstance(e, ast.Tuple) and len(e.elts) == 2 and isinstance(e.elts[0], ast.Constant)
+                        and isinstance(e.elts[0].value, str) for e in st.value.elts)):
+            # needed = [(".suffix", <test>), ...]
+            if refusal:
+                raise ExtractError("update_props line %d: second list of needed names" % st.lineno)
+            needed_var = st.targets[0].id
+            for e in st.value.elts:
+                field, test = _test_of(e.elts[1], fields)
+                refusal.append("(%s, %s, %s)" % (lean_str(e.elts[0].value), lean_str(field), test))
+            continue
+        if isinstance(st, ast.For) and needed_var is not None and _is_name(st.iter, needed_var):
+            tg = st.target
+            ok = (isinstance(tg, ast.Tuple) and len(tg.elts) == 2 and all(_is_name(x) for x in tg.elts)
+                  and len(st.body) == 1 and isinstance(st.body[0], ast.If) and not st.body[0].orelse
+                  and not st.orelse and len(st.body[0].body) == 1 and isinstance(st.body[0].body[0], ast.Raise))
+            if ok:
+                sv, nv = tg.elts[0].id, tg.elts[1].id
+                ok = ast.unparse(st.body[0].test) == "%s and %s + %s in hfile" % (nv, pname, sv)
+            if not ok:
+                raise ExtractError("update_props line %d: loop over the needed names is not modelled" % st.lineno)
+            ops.append("refuse")
+            continue
         if isinstance(st, ast.Assign) and len(st.targets) == 1 and _is_name(st.targets[0]):
             tgt, v = st.targets[0].id, st.value
             if (isinstance(v, ast.Subscript) and _is_name(v.value, "prop") and isinstance(v.slice, ast.Constant)
@@ -378,7 +404,9 @@ def props_shape(mod):
             rule(st, False)
             continue
         raise ExtractError("update_props line %d: %s is not modelled" % (st.lineno, ast.unparse(st)))
-    return find, recheck, ops, rules
+    if refusal and "refuse" not in ops:
+        raise ExtractError("update_props: the list of needed names is never tested")
+    return find, recheck, ops, rules, refusal
 
 
 # ------------------------------------------------------------------------------------------------
@@ -546,11 +574,11 @@ def shape(repo):
     path = os.path.join(repo, SOURCE)
     mod = ast.parse(open(path, encoding="utf-8").read())
     op, order = collect_shape(mod)
-    pfind, precheck, pops, rules = props_shape(mod)
+    pfind, precheck, pops, rules, refusal = props_shape(mod)
     dfind, dskip, dops = dims_shape(mod)
     outer, inner = id_shape(mod)
     return {"op": op, "order": order, "process": process_shape(mod), "id_outer": outer, "id_recheck": inner,
-            "bump": bump_shape(mod), "pfind": pfind, "precheck": precheck, "pops": pops, "rules": rules,
+            "bump": bump_shape(mod), "refusal": refusal, "pfind": pfind, "precheck": precheck, "pops": pops, "rules": rules,
             "dfind": dfind, "dskip": dskip, "dops": dops, "readers": readers_shape(repo)}
 
 
@@ -588,6 +616,9 @@ def render(sh):
         "def propOps : List String := [%s]\n"
         "/-- `update_props`: rules for the per-value extras in source order -/\n"
         "def extraRules : List Rule := [%s]\n"
+        "/-- `update_props`: names tested before anything is changed (suffix, field, test that makes the name needed); "
+        "the conversion is refused when a needed name is taken -/\n"
+        "def refusal : List (String × String × Test) := [%s]\n"
         "/-- `update_alias_range_dimension`: which dimension groups are scheduled -/\n"
         "def dimFind : BExp := %s\n"
         "/-- `update_alias_dims`: the conversion is skipped when this holds -/\n"
@@ -598,7 +629,7 @@ def render(sh):
         "end Nix.Upgrade.Gen\n" % (
             sh["op"], order, sh["process"], lean_bool(sh["id_outer"]), lean_bool(sh["id_recheck"]),
             lean_bool(sh["bump"]), sh["pfind"], sh["precheck"], ", ".join(lean_str(o) for o in sh["pops"]),
-            ",\n  ".join(sh["rules"]), sh["dfind"], sh["dskip"], ", ".join(lean_str(o) for o in sh["dops"]),
+            ",\n  ".join(sh["rules"]), ", ".join(sh["refusal"]), sh["dfind"], sh["dskip"], ", ".join(lean_str(o) for o in sh["dops"]),
             render_readers(*sh["readers"])))
 
 
